@@ -1,0 +1,119 @@
+//go:build verif
+
+// Package verifhook: verification hooks (build tag verif). Every hook is inert unless its environment variable or
+// context value is set, so one -tags verif binary serves all checks.
+package verifhook
+
+import (
+	"context"
+	"fmt"
+	"os"
+	"strconv"
+	"sync"
+	"time"
+)
+
+// ---- JSON worker scheduling --------------------------------------------------------------------------------------
+
+var jsonDelaySeed = func() uint64 {
+	s, err := strconv.ParseUint(os.Getenv("VERIF_JSON_DELAY_SEED"), 10, 64)
+	if err != nil {
+		return 0
+	}
+	return s
+}()
+
+// JSONWorkerDelay sleeps a pseudo-random duration (0..~3ms) derived from the seed and the first line of the batch, so
+// that parse batches complete out of order. Off when VERIF_JSON_DELAY_SEED is unset or 0.
+func JSONWorkerDelay(firstLine int) {
+	if jsonDelaySeed == 0 {
+		return
+	}
+	x := jsonDelaySeed ^ (uint64(firstLine)+1)*0x9e3779b97f4a7c15
+	x = (x ^ (x >> 30)) * 0xbf58476d1ce4e5b9
+	x = (x ^ (x >> 27)) * 0x94d049bb133111eb
+	x ^= x >> 31
+	time.Sleep(time.Duration(x%3000) * time.Microsecond)
+}
+
+// ---- join scheduling ----------------------------------------------------------------------------------------------
+
+type joinKey struct{}
+
+// JoinController receives one event per message the join loop has finished handling.
+type JoinController struct {
+	Events chan JoinEventInfo
+}
+
+type JoinEventInfo struct {
+	Side string // "left" | "right"
+	Kind string // "record" | "watermark" | "close" | "error"
+}
+
+func WithJoinController(ctx context.Context, c *JoinController) context.Context {
+	return context.WithValue(ctx, joinKey{}, c)
+}
+
+// JoinEvent tells the controller found in ctx (if any) that the join consumed one message from `side`.
+func JoinEvent(ctx context.Context, side string, kind string) {
+	c, ok := ctx.Value(joinKey{}).(*JoinController)
+	if !ok || c == nil {
+		return
+	}
+	c.Events <- JoinEventInfo{Side: side, Kind: kind}
+}
+
+// ---- crash points ---------------------------------------------------------------------------------------------------
+
+var (
+	crashMu    sync.Mutex
+	crashCount int
+)
+
+func crashAt() (int, bool) {
+	n, err := strconv.Atoi(os.Getenv("VERIF_CRASH_AT"))
+	return n, err == nil
+}
+
+func logPoint(kind, name string, extra string) {
+	if p := os.Getenv("VERIF_CRASH_LOG"); p != "" {
+		f, err := os.OpenFile(p, os.O_APPEND|os.O_CREATE|os.O_WRONLY, 0o644)
+		if err == nil {
+			fmt.Fprintf(f, "%d %s %s %s\n", crashCount, kind, name, extra)
+			f.Close()
+		}
+	}
+}
+
+// CrashPoint numbers the instrumented steps 1,2,3...; when VERIF_CRASH_AT equals the number of this step the process
+// dies here, as if killed (exit status 137, nothing flushed, no deferred function runs).
+func CrashPoint(name string) {
+	crashMu.Lock()
+	defer crashMu.Unlock()
+	crashCount++
+	logPoint("point", name, "")
+	if n, ok := crashAt(); ok && n == crashCount {
+		os.Exit(137)
+	}
+}
+
+// TornWrite is called immediately before a file write of `data` to `path`. It is a crash point; when selected, it first
+// leaves the file exactly as an interrupted os.WriteFile would (truncated, then the first VERIF_TORN_LEN bytes) and dies.
+func TornWrite(name string, path string, data []byte) {
+	crashMu.Lock()
+	defer crashMu.Unlock()
+	crashCount++
+	logPoint("write", name, fmt.Sprintf("%s %d", path, len(data)))
+	if n, ok := crashAt(); ok && n == crashCount {
+		if k, err := strconv.Atoi(os.Getenv("VERIF_TORN_LEN")); err == nil && k >= 0 {
+			if k > len(data) {
+				k = len(data)
+			}
+			if f, err := os.OpenFile(path, os.O_WRONLY|os.O_CREATE|os.O_TRUNC, 0o644); err == nil {
+				f.Write(data[:k])
+				f.Close()
+			}
+		}
+		os.Exit(137)
+	}
+}
